@@ -138,6 +138,24 @@ def run_case(case, fail, stats):
         tars = [act.target(i, 0.0, tol=1e-7) for i in range(A.shape[0])]
         opt = xd.Optimize(vary=vary, targets=tars, show_call_counter=False, n_steps_max=10)
         stats["newton_cases"] += 1
+        if case.get("queries"):
+            # read-only queries of merit-function views (what a scipy-style caller does to build `bounds`) before the step:
+            # they must not change what the optimizer does afterwards
+            stats["newton_with_queries"] = stats.get("newton_with_queries", 0) + 1
+            for resc in (None, tuple(case["queries"])):
+                try:
+                    v = opt.get_merit_function(rescale_x=resc, check_limits=False)
+                    v.get_x_limits()
+                    v.get_x()
+                    v.get_x_limits()
+                except Exception as e:
+                    fail("C16", "view-query-raises", {"case": case, "rescale": resc, "exc": type(e).__name__})
+                    return
+            xl = np.array(opt._err._get_x_limits(), dtype=float)
+            want = np.array([[-1e3 / (wi or 1.0), 1e3 / (wi or 1.0)] for wi in w])
+            if xl.shape != want.shape or not np.allclose(xl, want, rtol=1e-12):
+                fail("C16", "view-query-changed-the-solver-limits", {"case": case, "got": xl.tolist(), "want": want.tolist()})
+                return
         try:
             opt.step(1, broyden=False)
         except Exception as e:
@@ -174,6 +192,26 @@ def run_case(case, fail, stats):
         if not np.allclose(mf._x_to_knobs(mf._knobs_to_x(x)), x, rtol=1e-12, atol=1e-300):
             fail("C16", "weights-not-inverse", {"x": case["x"], "weights": case["weights"], "direction": "knobs"})
         view = opt.get_merit_function(rescale_x=tuple(case["range"]), check_limits=False)
+        # the mapping sends the ends of the range to the limits in solver units (limit / weight), before and after the
+        # view has been asked for its own limits (a read-only query), and that query answers with the range
+        lo_n = np.array([l[0] / wt for l, wt in zip(case["limits"], case["weights"])], dtype=float)
+        hi_n = np.array([l[1] / wt for l, wt in zip(case["limits"], case["weights"])], dtype=float)
+        r0, r1 = case["range"]
+        for when in ("built", "after-get_x_limits"):
+            ends = [np.array(view._scaled_to_native(np.full(nk, float(r))), dtype=float) for r in (r0, r1)]
+            if not (np.allclose(ends[0], lo_n, rtol=1e-9, atol=1e-9) and np.allclose(ends[1], hi_n, rtol=1e-9, atol=1e-9)):
+                fail("C16", "rescale-does-not-map-the-range-onto-the-limits",
+                     {"when": when, "limits": case["limits"], "weights": case["weights"], "range": case["range"],
+                      "got": [e.tolist() for e in ends], "want": [lo_n.tolist(), hi_n.tolist()]})
+                break
+            vl = np.array(view.get_x_limits(), dtype=float)
+            if vl.shape != (nk, 2) or not (np.allclose(vl[:, 0], r0) and np.allclose(vl[:, 1], r1)):
+                fail("C16", "rescaled-view-limits-are-not-the-range", {"got": vl.tolist(), "range": case["range"]})
+                break
+            nl = np.array(opt.get_merit_function(check_limits=False).get_x_limits(), dtype=float)
+            if nl.shape != (nk, 2) or not (np.allclose(nl[:, 0], lo_n, rtol=1e-12) and np.allclose(nl[:, 1], hi_n, rtol=1e-12)):
+                fail("C16", "native-view-limits-are-not-the-solver-limits", {"when": when, "got": nl.tolist(), "want": [lo_n.tolist(), hi_n.tolist()]})
+                break
         xn = view._scaled_to_native(x)
         if not np.allclose(view._scaled_from_native(xn), x, rtol=1e-9, atol=1e-9):
             fail("C16", "rescale-not-inverse", {"x": case["x"], "limits": case["limits"], "range": case["range"]})
@@ -212,6 +250,8 @@ def run_case(case, fail, stats):
                     elif phase == "weight-changed":
                         vary[-1].weight = vary[-1].weight * 4.0
                     x = view.get_x()
+                    if case.get("queries"):
+                        view.get_x_limits()          # a read-only query between the evaluations
                     try:
                         J = np.atleast_2d(view.get_jacobian(x))
                     except Exception as e:
@@ -274,7 +314,8 @@ def gen_cases(rng, n):
                     break
             yield {"kind": "newton", "A": A.tolist(), "xsol": [rng.choice([-2, -1, 0.5, 1, 3]) for _ in range(nk)],
                    "x0": [rng.choice([-1.5, 0.0, 0.25, 2.0]) for _ in range(nk)],
-                   "weights": [rng.choice([None, 0.5, 2.0, 10.0]) for _ in range(nk)] if rng.random() < 0.5 else None}
+                   "weights": [rng.choice([None, 0.5, 2.0, 10.0]) for _ in range(nk)] if rng.random() < 0.5 else None,
+                   "queries": rng.choice([None, [0, 1], [-1, 1]])}
         elif r < 0.85:
             nk = rng.randint(1, 4)
             lims = [[rng.choice([-10, -2, -1, 0]), rng.choice([0.5, 1, 3, 10])] for _ in range(nk)]
@@ -287,7 +328,7 @@ def gen_cases(rng, n):
             yield {"kind": "viewjac", "A": A.tolist(), "c": [rng.choice([-1, 0, 2]) for _ in range(m)],
                    "weights": [rng.choice([0.5, 1.0, 2.0]) for _ in range(nk)], "tweights": [rng.choice([0.5, 1.0, 3.0]) for _ in range(m)],
                    "limits": [[rng.choice([-10, -2]), rng.choice([3, 10])] for _ in range(nk)], "range": rng.choice([[0, 1], [-1, 1]]),
-                   "nonlinear": rng.random() < 0.3}
+                   "nonlinear": rng.random() < 0.3, "queries": rng.random() < 0.5}
 
 
 def main():
